@@ -289,6 +289,7 @@ def rule_c(ck, R):
 
 
 def run(ck):
+    ck.rule('C05.e', 'validation depends on the table flag REG_TF_DURING_INIT (always-fail registers accept their default during initialisation only): the flag is written by register_init alone and is clear on every exit of it (C04.a re-evaluated)')
     ck.rule('C05.a', 'who-may-write: from every checked entry point each reachable area write is in register_setx (entered via register_set = validator on) or register_block_write_unsafe (entered via the validating register_block_write); unchecked writers are unreachable')
     ck.rule('C05.b', 'bit set/clear: unsigned arms combine the same union member with | / & ~ and write back through the checked setter; all other types and type mismatch are refused without a write')
     ck.rule('C05.c', 'sanitise: decode -> validate per handle; sane keeps, INVALID/RANGE resets to default via the checked setter; touched marks cleared')
@@ -316,3 +317,6 @@ def run(ck):
         c02.rule_b(ck, R)
     finally:
         ck.verdict, ck.violation, ck.floor = orig_v, orig_viol, orig_floor
+    from .common import reevaluate
+    reevaluate(ck, 'C05.e', 'c04', lambda r, k: r == 'C04.a' and k.startswith('flags:'),
+               'the always-fail constraint is lifted only while REG_TF_DURING_INIT is set: nothing but register_init sets that flag, and register_init clears it on every exit')
